@@ -223,6 +223,10 @@ func main() {
 	}
 	r.Extra("distinct_encodings_seen", len(seen))
 	fsmBounds(r, rng)
+	fsmAddressing(r, rng)
+	r.FloorCount("fsm_addressing_cases", int64(r.Pick(150, 1500)))
+	r.FloorCount("fsm_multi_predicate_txns", int64(r.Pick(1000, 10000)))
+	r.FloorCount("fsm_streams_drained_after_other_requests", int64(r.Pick(1000, 10000)))
 	r.FloorNontrivial(int64(r.Pick(100_000, 500_000)))
 	r.FloorCount("pairs", int64(r.Pick(400_000, 1_500_000)))
 	r.FloorCount("fsm_bound_cases", int64(r.Pick(100, 1000)))
@@ -415,4 +419,224 @@ func fsmBounds(r *ev.Run, rng *rand.Rand) {
 		r.Eval(1)
 	}
 	r.Sample(map[string]any{"fsm_bounds": "puts of extreme keys (\\0, FFx1019/1020/1024, 'index', '\\x02index', …) then range read + range delete with extreme bounds, bookkeeping lookups, reopen"})
+}
+
+// fsmAddressing: every way the state machine is given a user key or a pair of range bounds names
+// the same pairs as in user-key space, whatever was encoded before it in the same request or by
+// other requests in between. Tables hold keys from the small alphabet, their concatenation aliases
+// (the user key whose stored key is enc(a)||enc(b), when there is one) and some long keys; judged
+// against the reference table: transactions with 1-4 single-key / range predicates (read-only
+// path and log path), and streamed range reads that are accepted, left alone while other requests
+// encode other keys and bounds, and only then drained.
+func fsmAddressing(r *ev.Run, rng *rand.Rand) {
+	alpha := []byte{0x00, 0x01, 0x02, 0x61, 0xFE, 0xFF}
+	rk := func() []byte {
+		switch rng.Intn(10) {
+		case 0:
+			return bytes.Repeat([]byte{alpha[rng.Intn(len(alpha))]}, 100+rng.Intn(30)) // around the 123/124 byte mark
+		case 1:
+			return bytes.Repeat([]byte{0xFF}, 1019+rng.Intn(6))
+		}
+		k := make([]byte, 1+rng.Intn(4))
+		for i := range k {
+			k[i] = alpha[rng.Intn(len(alpha))]
+		}
+		return k
+	}
+	for c, n := 0, r.Pick(200, 2000); c < n; c++ {
+		t, err := fsmx.Fresh("t", fsm.RecoveryTypeSnapshot)
+		if err != nil {
+			r.Violation("fsm-open", err.Error(), nil)
+			return
+		}
+		m := model.NewTable()
+		var pool [][]byte
+		for i := 0; i < 10; i++ {
+			pool = append(pool, rk())
+		}
+		// concatenation aliases
+		for i := 0; i < 6; i++ {
+			a, b := pool[rng.Intn(len(pool))], pool[rng.Intn(len(pool))]
+			ea, err1 := enc(a)
+			eb, err2 := enc(b)
+			if err1 != nil || err2 != nil {
+				continue
+			}
+			if k, err := key.DecodeBytes(append(append([]byte{}, ea...), eb...)); err == nil && k.KeyType == key.TypeUser && len(k.Key) > 0 && len(k.Key) <= 1024 {
+				pool = append(pool, append([]byte{}, k.Key...))
+				r.Count("fsm_concatenation_alias_keys", 1)
+			}
+		}
+		var entries []sm.Entry
+		idx := uint64(0)
+		for _, k := range pool {
+			if rng.Intn(3) > 0 {
+				idx++
+				e := fsmx.Entry(idx, &pb.Command{Type: pb.Command_PUT, Kv: &pb.KeyValue{Key: k, Value: []byte(fmt.Sprintf("v%d", rng.Intn(3)))}})
+				entries = append(entries, e)
+				m.Apply(idx, fsmx.Decoded(e))
+			}
+		}
+		if len(entries) == 0 {
+			t.Close()
+			continue
+		}
+		if _, err := t.Update(entries); err != nil {
+			r.Violation("update-error", err.Error(), nil)
+			t.Close()
+			return
+		}
+		fail := func(sig, what string) {
+			var ks []string
+			for _, k := range pool {
+				ks = append(ks, hx(k[:min(len(k), 12)]))
+			}
+			r.Violation(sig, what, map[string]any{"case": c, "seed": r.Seed, "key_pool_hex_prefixes": ks})
+			t.Close()
+		}
+		bound := func() []byte {
+			if rng.Intn(5) == 0 {
+				return []byte{0}
+			}
+			return pool[rng.Intn(len(pool))]
+		}
+		cmpOf := func() *pb.Compare {
+			cp := &pb.Compare{Key: pool[rng.Intn(len(pool))]}
+			if rng.Intn(4) == 0 {
+				cp.RangeEnd = bound()
+			}
+			if rng.Intn(2) == 0 {
+				cp.Result = pb.Compare_CompareResult(rng.Intn(4))
+				cp.Target = pb.Compare_VALUE
+				cp.TargetUnion = &pb.Compare_Value{Value: []byte(fmt.Sprintf("v%d", rng.Intn(3)))}
+			}
+			return cp
+		}
+		rangeOp := func() *pb.RequestOp {
+			rq := &pb.RequestOp_Range{Key: pool[rng.Intn(len(pool))]}
+			if rng.Intn(2) == 0 {
+				rq.Key, rq.RangeEnd = bound(), bound()
+			}
+			return &pb.RequestOp{Request: &pb.RequestOp_RequestRange{RequestRange: rq}}
+		}
+		sameRange := func(got *pb.ResponseOp_Range, exp []model.KV) string {
+			if len(got.GetKvs()) != len(exp) {
+				return fmt.Sprintf("%d pairs, expected %d", len(got.GetKvs()), len(exp))
+			}
+			for i, kv := range got.GetKvs() {
+				if string(kv.Key) != exp[i].K || !bytes.Equal(kv.Value, exp[i].V) {
+					return fmt.Sprintf("pair %d is %x=%q, expected %x=%q", i, kv.Key[:min(len(kv.Key), 12)], kv.Value, exp[i].K[:min(len(exp[i].K), 12)], exp[i].V)
+				}
+			}
+			return ""
+		}
+		descCmp := func(cs []*pb.Compare) string {
+			var out []string
+			for _, cp := range cs {
+				d := fmt.Sprintf("%x", cp.Key[:min(len(cp.Key), 12)])
+				if cp.RangeEnd != nil {
+					d += fmt.Sprintf("..%x", cp.RangeEnd[:min(len(cp.RangeEnd), 12)])
+				}
+				if cp.TargetUnion != nil {
+					d += fmt.Sprintf(" %v %q", cp.Result, cp.GetValue())
+				} else {
+					d += " exists"
+				}
+				out = append(out, d)
+			}
+			return fmt.Sprint(out)
+		}
+		// (1) transactions with several predicates, read-only path and log path
+		for i := 0; i < 12; i++ {
+			req := &pb.TxnRequest{}
+			for j, nj := 0, 1+rng.Intn(4); j < nj; j++ {
+				req.Compare = append(req.Compare, cmpOf())
+			}
+			req.Success = []*pb.RequestOp{rangeOp()}
+			req.Failure = []*pb.RequestOp{rangeOp()}
+			expOK, expResp := m.Txn(req.Compare, req.Success, req.Failure)
+			got, err := t.Txn(req)
+			if err != nil {
+				fail("read-error", "read-only transaction: "+err.Error())
+				return
+			}
+			if got.Succeeded != expOK {
+				fail("predicate-addresses-other-key", fmt.Sprintf("read-only transaction with predicates %s: succeeded=%v, the reference says %v", descCmp(req.Compare), got.Succeeded, expOK))
+				return
+			}
+			if why := sameRange(got.Responses[0].GetResponseRange(), expResp[0].Range.Full); why != "" {
+				fail("range-bounds-differ-between-spaces", fmt.Sprintf("range in a read-only transaction: %s", why))
+				return
+			}
+			// the same predicates through the log (the branch writes a marker the reference also writes)
+			idx++
+			mark := []byte(fmt.Sprintf("m%d", idx))
+			tx := &pb.Txn{Compare: req.Compare,
+				Success: []*pb.RequestOp{{Request: &pb.RequestOp_RequestPut{RequestPut: &pb.RequestOp_Put{Key: []byte("a-marker"), Value: append([]byte("s"), mark...)}}}},
+				Failure: []*pb.RequestOp{{Request: &pb.RequestOp_RequestPut{RequestPut: &pb.RequestOp_Put{Key: []byte("a-marker"), Value: append([]byte("f"), mark...)}}}}}
+			e := fsmx.Entry(idx, &pb.Command{Type: pb.Command_TXN, Txn: tx})
+			res, err := t.Update([]sm.Entry{e})
+			if err != nil {
+				fail("update-error", err.Error())
+				return
+			}
+			exp := m.Apply(idx, fsmx.Decoded(e))
+			if gotOK := res[0].Value == 1; gotOK != exp.TxnSucceeded {
+				fail("predicate-addresses-other-key", fmt.Sprintf("transaction in the log with predicates %s: succeeded=%v, the reference says %v", descCmp(req.Compare), gotOK, exp.TxnSucceeded))
+				return
+			}
+			r.Count("fsm_multi_predicate_txns", 2)
+		}
+		// (2) streamed ranges accepted, then other requests, then drained
+		for i := 0; i < 12; i++ {
+			rq := rangeOp().GetRequestRange()
+			if rq.RangeEnd == nil {
+				rq.RangeEnd = bound()
+			}
+			var betweenErr string
+			chunks, err := t.StreamDeferred(rq, func() {
+				for j, nj := 0, 1+rng.Intn(4); j < nj; j++ {
+					o := rangeOp().GetRequestRange()
+					g, err := t.Range(o)
+					if err != nil {
+						betweenErr = err.Error()
+						return
+					}
+					if why := sameRange(g, m.Select(o.Key, o.RangeEnd)); why != "" && betweenErr == "" {
+						betweenErr = "unary range between: " + why
+					}
+				}
+			})
+			if err != nil {
+				fail("read-error", "streamed range: "+err.Error())
+				return
+			}
+			if betweenErr != "" {
+				fail("range-bounds-differ-between-spaces", betweenErr)
+				return
+			}
+			all := &pb.ResponseOp_Range{}
+			for _, ch := range chunks {
+				all.Kvs = append(all.Kvs, ch.Kvs...)
+			}
+			if why := sameRange(all, m.Select(rq.Key, rq.RangeEnd)); why != "" {
+				fail("range-bounds-differ-between-spaces", fmt.Sprintf("streamed range [%x,%x) drained after other requests had been served: %s", rq.Key[:min(len(rq.Key), 12)], rq.RangeEnd[:min(len(rq.RangeEnd), 12)], why))
+				return
+			}
+			r.Count("fsm_streams_drained_after_other_requests", 1)
+		}
+		d, err := t.Dump()
+		if err != nil {
+			fail("dump-error", err.Error())
+			return
+		}
+		if why := fsmx.DiffContent(d, m); why != "" {
+			fail("wildcard-read", "final content: "+why)
+			return
+		}
+		t.Close()
+		r.Count("fsm_addressing_cases", 1)
+		r.Eval(1)
+	}
+	r.Sample(map[string]any{"fsm_addressing": "tables of small-alphabet keys, concatenation aliases and long keys; multi-predicate transactions on both paths; streamed ranges drained after other requests"})
 }
